@@ -2,12 +2,14 @@
     Executable definitions only; lemmas are in Proofs/SseLegacy.v.
 
     The model is a small FAMILY indexed by [cfg]: each flag selects between the
-    behaviour of /repo HEAD (false) and the behaviour after one proposed patch
-    (true).  [cfg_head] is the code as it exists; [cfg_patched] the code with
-    fixes/C12-*.patch applied.  The check identifies the member the code under
-    test behaves like and runs the correspondence against that member; the
-    full-strength theorems hold for [cfg_patched], each [false] flag has a
-    refutation witness.
+    behaviour before one repair (false) and after it (true).  The first five
+    repairs are in /repo (commits 0908bfd, 4efc7a1, 863d8f1, 4529f64, 88582b2);
+    the last two are proposed (fixes/C12-6-*.patch, fixes/C12-7-*.patch).
+    [cfg_orig] is the code before any of them, [cfg_head] the code as it exists
+    at /repo HEAD, [cfg_patched] HEAD with the two proposed patches.  The check
+    identifies the member the code under test behaves like and runs the
+    correspondence against that member; the full-strength theorems hold for
+    [cfg_patched], each [false] flag has a refutation witness.
 
     (a) establishment   [enter]
     (b) stream parser   [feed] / [run_parser]           (_process_sse_stream, _handle_endpoint_event)
@@ -21,10 +23,15 @@ Record cfg := Cfg {
   c_keep_id : bool;          (* synthesised errors carry the request's id, not str(id)       (C12-synth-error-keeps-request-id) *)
   c_other_terminal : bool;   (* unexpected status: answer for this id or a synthesised error (C12-other-status-always-terminal) *)
   c_enter_cancel : bool;     (* cancellation while entering runs _cleanup                    (C12-cancel-during-enter-cleans-up) *)
-  c_reraise_cancel : bool    (* the sender does not swallow the CancelledError of its future (C12-exit-deadlock-swallowed-cancel) *)
+  c_reraise_cancel : bool;   (* the sender does not swallow the CancelledError of its future (C12-exit-deadlock-swallowed-cancel) *)
+  c_drop_late : bool;        (* the keys of requests answered with a synthesised error are remembered and a
+                                later response bearing such a key is dropped                  (C12-6-late-answer-dropped) *)
+  c_route_in_stream : bool   (* an answer that resolves a pending future is delivered by the event-stream
+                                task itself, at once; the sender routes nothing more for it   (C12-7-answer-routed-in-stream-order) *)
 }.
-Definition cfg_head := Cfg false false false false false.
-Definition cfg_patched := Cfg true true true true true.
+Definition cfg_orig := Cfg false false false false false false false.
+Definition cfg_head := Cfg true true true true true false false.
+Definition cfg_patched := Cfg true true true true true true true.
 
 (* ------------------------------------------------------------------ *)
 (** * (b) the event-stream parser                                      *)
@@ -215,6 +222,22 @@ Inductive sender :=
 | SWaiting (i : id)
 | SWoken (i : id) (a : msg).
 
+(** The transport's state as far as requests go: what the sender task is doing
+    and [_abandoned_requests] — the keys ([str(id)]) of the requests the
+    transport has answered itself with a synthesised error.  Members without
+    [c_drop_late] have no such set: the list is never written nor read. *)
+Record sstate := SS { s_task : sender; s_late : list str }.
+Definition sinit : sstate := SS SIdle [].
+
+Definition has_key (k : str) (l : list str) : bool := existsb (str_eqb k) l.
+Definition drop_key (k : str) (l : list str) : list str := filter (fun x => negb (str_eqb k x)) l.
+
+(** [self._abandoned_requests.add(message_id)] / [.discard(message_id)] *)
+Definition abandon (c : cfg) (i : id) (late : list str) : list str :=
+  if c_drop_late c then key i :: late else late.
+Definition unabandon (c : cfg) (i : id) (late : list str) : list str :=
+  if c_drop_late c then drop_key (key i) late else late.
+
 Definition err_id (c : cfg) (i : id) : id := if c_keep_id c then i else IdStr (key i).
 Definition synth (c : cfg) (i : id) (code : Z) : out := (FromSender, Msg (Some (err_id c i)) (KErr code) 0).
 
@@ -222,72 +245,109 @@ Definition synth (c : cfg) (i : id) (code : Z) : out := (FromSender, Msg (Some (
     response (result/error) whose id is the request's. *)
 Definition is_answer_for (i : id) (m : msg) : bool := kind_terminal (m_kind m) && same_key i m.
 
-Definition post_done (c : cfg) (i : id) (fut : option msg) (r : post_res) : sender * list out :=
+(** The request ends with a synthesised error: routed, key remembered. *)
+Definition fail (c : cfg) (i : id) (late : list str) (code : Z) : sstate * list out :=
+  (SS SIdle (abandon c i late), [synth c i code]).
+Definition done (late : list str) (o : list out) : sstate * list out := (SS SIdle late, o).
+
+(** The POST completes; [acked]: what a 202 leads to. *)
+Definition post_branches (c : cfg) (i : id) (late : list str) (r : post_res) (acked : sstate * list out)
+  : sstate * list out :=
   match r with
-  | PExc => (SIdle, [synth c i (-32603)])
+  | PExc => fail c i late (-32603)
   | PStatus code b =>
       if code =? 200 then
         match b with
-        | BMsg m => (SIdle, [(FromSender, m)])
-        | BInvalid => (SIdle, [])                 (* _route_incoming_message swallows the validation error *)
-        | BNotJson => (SIdle, [synth c i (-32603)])
+        | BMsg m => done late [(FromSender, m)]
+        | BInvalid => done late []                 (* _route_incoming_message swallows the validation error *)
+        | BNotJson => fail c i late (-32603)
         end
-      else if code =? 202 then
-        match fut with
-        | Some a => (SIdle, [(FromSender, a)])    (* wait_for on a done future returns at once *)
-        | None => (SWaiting i, [])
-        end
+      else if code =? 202 then acked
       else if c_other_terminal c then
         match b with
-        | BMsg m => if is_answer_for i m then (SIdle, [(FromSender, m)]) else (SIdle, [synth c i (-32603)])
-        | _ => (SIdle, [synth c i (-32603)])
+        | BMsg m => if is_answer_for i m then done late [(FromSender, m)] else fail c i late (-32603)
+        | _ => fail c i late (-32603)
         end
       else
         match b with
-        | BMsg m => (SIdle, [(FromSender, m)])
-        | BInvalid => (SIdle, [])
-        | BNotJson => (SIdle, [synth c i (-32603)])
+        | BMsg m => done late [(FromSender, m)]
+        | BInvalid => done late []
+        | BNotJson => fail c i late (-32603)
         end
   end.
 
-Definition step (c : cfg) (st : sender) (e : ev) : sender * list out :=
+(** [fut = Some a]: the event stream has already resolved the future with [a]
+    (the entry is popped).  HEAD: the branches as above, a 202 hands [a] on at
+    once ([wait_for] on a done future).  With [c_route_in_stream] the stream
+    task has delivered [a] itself and the sender routes nothing, whatever the
+    POST says ([if request.delivered_in_stream]). *)
+Definition post_done (c : cfg) (i : id) (fut : option msg) (late : list str) (r : post_res) : sstate * list out :=
+  match fut with
+  | Some a =>
+      if c_route_in_stream c then done late []
+      else post_branches c i late r (done late [(FromHandoff, a)])
+  | None => post_branches c i late r (SS (SWaiting i) late, [])
+  end.
+
+(** A message event that resolves no pending future: a response (result or
+    error) bearing the key of an abandoned request is dropped and the key
+    forgotten ([c_drop_late]); anything else is routed. *)
+Definition late_hit (c : cfg) (late : list str) (m : msg) : bool :=
+  c_drop_late c && kind_terminal (m_kind m) &&
+  match m_id m with Some i => has_key (key i) late | None => false end.
+
+Definition forget (late : list str) (m : msg) : list str :=
+  match m_id m with Some i => drop_key (key i) late | None => late end.
+
+Definition not_pending (c : cfg) (st : sstate) (m : msg) : sstate * list out :=
+  if late_hit c (s_late st) m then (SS (s_task st) (forget (s_late st) m), [])
+  else (st, [(FromSse, m)]).
+
+(** ... that resolves the pending future: handed to the sender (nothing yet),
+    or — [c_route_in_stream] — delivered here and now. *)
+Definition resolved_out (c : cfg) (m : msg) : list out :=
+  if c_route_in_stream c then [(FromSse, m)] else [].
+
+Definition step (c : cfg) (st : sstate) (e : ev) : sstate * list out :=
+  let late := s_late st in
   match e with
-  | ESend (CReq i) => match st with SIdle => (SPosting i, []) | _ => (st, []) end
-  | ESend CNotif => match st with SIdle => (SPostingN, []) | _ => (st, []) end
+  | ESend (CReq i) => match s_task st with SIdle => (SS (SPosting i) (unabandon c i late), []) | _ => (st, []) end
+  | ESend CNotif => match s_task st with SIdle => (SS SPostingN late, []) | _ => (st, []) end
   | EPost r =>
-      match st with
-      | SPostingN => (SIdle, [])
-      | SPosting i => post_done c i None r
-      | SResolved i a => post_done c i (Some a) r
+      match s_task st with
+      | SPostingN => (SS SIdle late, [])
+      | SPosting i => post_done c i None late r
+      | SResolved i a => post_done c i (Some a) late r
       | _ => (st, [])
       end
   | ETimeout =>
-      match st with
-      | SWaiting i => (SIdle, [synth c i (-32000)])
-      | SWoken i _ => (SIdle, [synth c i (-32000)])     (* exact tie: the task is cancelled before it reads the result *)
+      match s_task st with
+      | SWaiting i => fail c i late (-32000)
+      | SWoken i _ =>                                  (* exact tie: the task is cancelled before it reads the result *)
+          if c_route_in_stream c then done late [] else fail c i late (-32000)
       | _ => (st, [])
       end
   | EWake =>
-      match st with
-      | SWoken i a => (SIdle, [(FromSender, a)])
+      match s_task st with
+      | SWoken i a => done late (if c_route_in_stream c then [] else [(FromHandoff, a)])
       | _ => (st, [])
       end
   | ESse None => (st, [])
   | ESse (Some m) =>
-      match st with
-      | SPosting i => if same_key i m then (SResolved i m, []) else (st, [(FromSse, m)])
-      | SWaiting i => if same_key i m then (SWoken i m, []) else (st, [(FromSse, m)])
-      | _ => (st, [(FromSse, m)])
+      match s_task st with
+      | SPosting i => if same_key i m then (SS (SResolved i m) late, resolved_out c m) else not_pending c st m
+      | SWaiting i => if same_key i m then (SS (SWoken i m) late, resolved_out c m) else not_pending c st m
+      | _ => not_pending c st m
       end
   end.
 
-Fixpoint run (c : cfg) (st : sender) (evs : list ev) : list out :=
+Fixpoint run (c : cfg) (st : sstate) (evs : list ev) : list out :=
   match evs with
   | [] => []
   | e :: r => snd (step c st e) ++ run c (fst (step c st e)) r
   end.
 
-Fixpoint final (c : cfg) (st : sender) (evs : list ev) : sender :=
+Fixpoint final (c : cfg) (st : sstate) (evs : list ev) : sstate :=
   match evs with
   | [] => st
   | e :: r => final c (fst (step c st e)) r
@@ -302,7 +362,12 @@ Fixpoint stream_msgs (evs : list ev) : list msg :=
   end.
 
 Definition sse_outs (l : list out) : list msg :=
-  map snd (filter (fun o => match fst o with FromSse => true | FromSender => false end) l).
+  map snd (filter (fun o => match fst o with FromSse => true | _ => false end) l).
+
+(** What reached the read stream FROM THE EVENT STREAM, in the order it
+    reached it — whoever delivered it. *)
+Definition from_stream (o : out) : bool := match fst o with FromSender => false | _ => true end.
+Definition stream_part (l : list out) : list msg := map snd (filter from_stream l).
 
 (* ------------------------------------------------------------------ *)
 (** * (d) resources                                                    *)
